@@ -71,6 +71,37 @@ def impl_functions(src, name):
     return out
 
 
+def drop_conditionals(body):
+    """the text of a function body without the blocks of `if` / `else` / `match`: what is executed unconditionally
+    (loops are kept).  A field re-established only inside a conditional does not count as reset."""
+    out = []
+    i = 0
+    n = len(body)
+    while i < n:
+        m = re.compile(r"\b(if|match)\b").search(body, i)
+        if not m:
+            out.append(body[i:])
+            break
+        out.append(body[i:m.start()])
+        j = body.find("{", m.end())
+        if j < 0:
+            break
+        k = balanced(body, j)
+        i = k + 1
+        # else / else if chains
+        while True:
+            m2 = re.compile(r"\s*else\b").match(body, i)
+            if not m2:
+                break
+            j = body.find("{", m2.end())
+            if j < 0:
+                i = n
+                break
+            k = balanced(body, j)
+            i = k + 1
+    return "".join(out)
+
+
 def mutated(body, fields):
     res = set()
     for f in fields:
@@ -98,7 +129,7 @@ def generate(repo):
             if cut < 0:
                 raise Untranslatable("hash_set: loop over the data not found")
             rbody = rbody[:cut]
-        reset_fields = mutated(rbody, fields)
+        reset_fields = mutated(drop_conditionals(rbody), fields)
         mut = set()
         for fn, body in fns.items():
             if fn in EXEMPT_FUNCS or fn == resetfn and resetfn != "hash_set":
